@@ -949,7 +949,12 @@ func (vx *Vaxis) handleSequence(seq ansi.Sequence) {
 					vx.PostEventBlocking(textAreaChar{})
 					return
 				}
-				vx.chSizeDone <- true
+				// Non-blocking: when nobody is waiting for the report
+				// a report is already pending and this one is dropped
+				select {
+				case vx.chSizeDone <- true:
+				default:
+				}
 			case 48:
 				// CSI <type> ; <height> ; <width> ; <height_pix> ; <width_pix> t
 				switch len(seq.Parameters) {
@@ -1051,21 +1056,30 @@ func (vx *Vaxis) handleSequence(seq ansi.Sequence) {
 			// content. In this case, we don't want to fill the channel buffer
 			// as no one will clear it.
 			if vx.CanReportColor() {
-				vx.chColor <- string(seq.Payload)
+				select {
+				case vx.chColor <- string(seq.Payload):
+				default:
+				}
 			}
 			vx.PostEventBlocking(capabilityOsc4{})
 		}
 		if strings.HasPrefix(string(seq.Payload), "10") {
 			// Similar to OSC 4
 			if vx.CanReportForegroundColor() {
-				vx.chFg <- string(seq.Payload)
+				select {
+				case vx.chFg <- string(seq.Payload):
+				default:
+				}
 			}
 			vx.PostEventBlocking(capabilityOsc10{})
 		}
 		if strings.HasPrefix(string(seq.Payload), "11") {
 			// Similar to OSC 4
 			if vx.CanReportBackgroundColor() {
-				vx.chBg <- string(seq.Payload)
+				select {
+				case vx.chBg <- string(seq.Payload):
+				default:
+				}
 			}
 			vx.PostEventBlocking(capabilityOsc11{})
 		}
